@@ -10,7 +10,7 @@ package lexer
 //@   && (l.position >= slen(l.input) ==> (l.ch == 0 && l.readPosition == l.position))
 //@   && ((l.position < slen(l.input) && l.ch < 128) ==> l.readPosition == l.position + 1)
 //@   && l.lineNumber == LineOf(l.input, l.position) && 1 <= l.lineNumber
-//@   && len(l.queuedTokens) <= 1 && (forall q int :: {l.queuedTokens[q]} (0 <= q && q < len(l.queuedTokens)) ==> TokLines(l.queuedTokens[q], l.lineNumber))
+//@   && 0 <= len(l.queuedTokens) && len(l.queuedTokens) <= 1 && (forall q int :: {l.queuedTokens[q]} (0 <= q && q < len(l.queuedTokens)) ==> (TokLines(l.queuedTokens[q], l.lineNumber) && l.queuedTokens[q].Type == token.STRING))
 //@   && 0 <= LineStart(l.input, l.position) && LineStart(l.input, l.position) <= l.position
 //@   && l.charNumber == l.readPosition - LineStart(l.input, l.position)
 //@   && l.prevCharNumber == l.position - LineStart(l.input, l.position)
@@ -23,6 +23,9 @@ package lexer
 
 // lower bound on the first line of every token still to be delivered (C18: error ranges start <= end)
 //@ pred MinLine(l *Lexer) = (len(l.queuedTokens) > 0 ? l.queuedTokens[0].LineNumber : l.lineNumber)
+
+// nothing is left to deliver
+//@ pred AtEnd(l *Lexer) = l.position >= slen(l.input) && len(l.queuedTokens) == 0
 
 //@ pred IsBlank(r int) = r == ' ' || r == '\t' || r == '\n' || r == '\r'
 
@@ -195,6 +198,7 @@ package lexer
 //@ func (l *Lexer) NextToken
 //@   requires ValidUTF8(l.input) && LexInv(l)
 //@   modifies l.ch, l.position, l.readPosition, l.lineNumber, l.prevCharNumber, l.charNumber, l.prevUtf8CharNumber, l.utf8CharNumber, l.queuedTokens
+//@   useret NoNulAt(l.input, l.position - 1)
 //@   useret SubstrCat(l.input, l.position - 2, l.position - 1, l.position)
 //@   useret SubstrCat(l.input, l.position - slen(result.Literal), l.position - slen(result.Literal) + 1, l.position)
 //@   useret SubstrCat(l.input, l.position - slen(result.Literal), l.position - slen(result.Literal) + 1, l.position - slen(result.Literal) + 2)
@@ -210,6 +214,15 @@ package lexer
 //@   ensures [C16,C18:tok-lines] TokLines(result, l.lineNumber)
 //@   ensures [C18:tok-order] old(MinLine(l)) <= result.LineNumber && result.LineNumber <= MinLine(l)
 //@   ensures [C18:progress] (len(old(l.queuedTokens)) == 0 && result.Type != token.EOF) ==> l.position > old(l.position)
+// every delivered token is paid for: a fresh one by at least one byte of input per token it brings (itself and the
+// string it may queue), a queued one by leaving the queue; after EOF nothing is left (C18: the parser's loops end)
+//@   ensures [C18:consume] (len(old(l.queuedTokens)) == 0 && result.Type != token.EOF) ==> l.position - old(l.position) >= 1 + len(l.queuedTokens)
+//@   ensures [C18:consume-queued] len(old(l.queuedTokens)) > 0 ==> result.Type == token.STRING
+//@   ensures [C18:consume-eof] (len(old(l.queuedTokens)) == 0 && result.Type != token.STRINGTYPE) ==> len(l.queuedTokens) == 0
+// (a NUL character in the input is lexed as an EOF token in mid-stream; the end-of-input reading of EOF, on which
+// the termination argument of the parser's loops rests, is therefore stated for inputs without NUL: A-nonul)
+//@   ensures [C18:eof-final] (NoNul(l.input) && result.Type == token.EOF) ==> AtEnd(l)
+//@   ensures [C18:eof-stays] old(AtEnd(l)) ==> (AtEnd(l) && result.Type == token.EOF)
 //@   ensures [C18:eof-absorbing] (len(old(l.queuedTokens)) == 0 && old(l.position) >= slen(l.input)) ==> (result.Type == token.EOF && l.position == old(l.position))
 //@   loop 1
 //@     invariant LexInv(l) && Advanced(l, old(l.position), old(l.input), old(l.lineNumber)) && ValidUTF8(l.input) && !IsBlank(l.ch) && len(old(l.queuedTokens)) == 0 && l.queuedTokens == old(l.queuedTokens)
